@@ -18,9 +18,9 @@ BINS = ["dsim", "tree"]
 BUILTIN_TOPICS = ["DCPSParticipant", "DCPSTopic", "DCPSPublication", "DCPSSubscription", "TypeLookupRequest",
                   "TypeLookupReply"]
 WIDTH = {"pub": 256, "sub": 256, "topic": 65536, "writer": 65536, "reader": 65536}
-CAUSE_WIDTH = "creation-count-reached-counter-width"
-CAUSE_CFT_STAYS = "content-filtered-topic-never-removed"
-CAUSE_TOPIC_VIA_CFT = "topic-deleted-while-used-through-content-filtered-topic"
+# causes of the findings fixed by fixes/D40.patch, fixes/D-tree-1.patch, fixes/D-tree-2.patch are no longer emitted:
+# a creation that crashes at the counter rail, a participant that cannot be deleted because of a content-filtered
+# topic, a topic deleted while used through a content-filtered topic are plain violations now
 CAUSE_UNREG = "instance-still-known-after-unregister"
 CAUSE_LOOKUP_KEYLESS = "lookup-instance-keyless-not-refused"
 CREATE_OPS = ("participant", "publisher", "subscriber", "topic", "cft", "writer", "reader")
@@ -78,8 +78,8 @@ class Shadow:
         return next((o for o in self.ents if o.alive and o.kind == "topic" and o.part is part and o.tname == tname), None)
 
     def cft_named(self, part, cname):
-        # content-filtered topics are looked up by name; the code never forgets one
-        return next((o for o in self.ents if o.kind == "cft" and o.part is part and o.cname == cname), None)
+        # content-filtered topics are looked up by name (first match)
+        return next((o for o in self.ents if o.alive and o.kind == "cft" and o.part is part and o.cname == cname), None)
 
     def expect(self, prop, got, want, what, cause=None):
         """want: a canonical answer prefix ('ok', 'err:X') or a tuple of acceptable ones"""
@@ -131,22 +131,15 @@ class Shadow:
             f(t[1:], got)
 
     def on_crash(self, t, got):
-        cause = None
-        if t[0] in CREATE_OPS and t[0] != "participant":
-            plain, _ = kv_of(t[1:])
-            part, kind = None, None
-            if t[0] in ("publisher", "subscriber", "topic") and len(plain) >= 2:
-                p = self.names.get(plain[1])
-                part, kind = p, {"publisher": "pub", "subscriber": "sub", "topic": "topic"}[t[0]]
-            elif t[0] == "cft" and len(plain) >= 3:
-                tp = self.names.get(plain[2])
-                part, kind = (tp.part if tp is not None and tp.kind == "topic" else None), "topic"
-            elif t[0] in ("writer", "reader") and len(plain) >= 2:
-                g = self.names.get(plain[1])
-                part, kind = (g.part if g is not None and g.kind in ("publisher", "subscriber") else None), t[0]
-            if part is not None and part.kind == "participant" and part.incs.get(kind, 0) == WIDTH[kind] - 1:
-                cause = CAUSE_WIDTH
-        self.v("C35", f"{' '.join(t)} -> {got}", cause)
+        self.v("C35", f"{' '.join(t)} -> {got}", None)
+
+    def exhausted(self, part, kind, got):
+        """with fixes/D40.patch a creation whose counter has handed out its last value answers OutOfResources
+        (counter values 0 .. width-2 are usable); that is an error return, which C35 allows"""
+        if got == "err:OutOfResources" and part.incs.get(kind, 0) >= WIDTH[kind] - 1:
+            self.count("exhausted:" + kind)
+            return True
+        return False
 
     def op_factory_qos(self, a, got):
         _, kv = kv_of(a)
@@ -157,7 +150,7 @@ class Shadow:
         plain, kv = kv_of(a)
         if self.expect("C36", got, "ok", f"create participant {plain[0]}"):
             e = Ent("participant", enabled=self.factory_auto, autoenable=kv.get("autoenable", "1") == "1",
-                    incs={}, had_cft=False)
+                    incs={})
             self.add(plain[0], e, got.split()[1])
 
     def group(self, a, got, kind, short):
@@ -167,6 +160,8 @@ class Shadow:
             return
         if not parent.alive:
             self.expect("C36", got, "err:AlreadyDeleted", f"create {kind} on deleted participant {plain[1]}")
+            return
+        if self.exhausted(parent, short, got):
             return
         if self.expect("C36", got, "ok", f"create {kind} {name}"):
             parent.incs[short] = parent.incs.get(short, 0) + 1
@@ -189,6 +184,8 @@ class Shadow:
             return
         if tname in BUILTIN_TOPICS or self.topic_alive(parent, tname) is not None:
             return  # BadParameter / PreconditionNotMet: not part of C35/C36/C28
+        if self.exhausted(parent, "topic", got):
+            return
         if self.expect("C36", got, "ok", f"create topic {name}"):
             parent.incs["topic"] = parent.incs.get("topic", 0) + 1
             self.add(name, Ent("topic", part=parent, tname=tname, keyed=ty in ("ki", "kb")), got.split()[1])
@@ -203,9 +200,10 @@ class Shadow:
             return
         if self.topic_alive(part, tp.tname) is None:
             return
-        if is_ok(got):
+        if self.exhausted(part, "topic", got):
+            return
+        if self.expect("C36", got, "ok", f"create content-filtered topic {name}"):
             part.incs["topic"] = part.incs.get("topic", 0) + 1
-            part.had_cft = True
             e = Ent("cft", part=part, cname=cname, related=tp.tname)
             self.ents.append(e)
             self.names[name] = e
@@ -219,6 +217,8 @@ class Shadow:
         topic = self.topic_alive(part, tp.tname)
         if not part.alive or not pub.alive or topic is None:
             self.expect("C36", got, "err:AlreadyDeleted", f"create writer {name} on a deleted publisher/topic/participant")
+            return
+        if self.exhausted(part, "writer", got):
             return
         if got == "err:InconsistentPolicy":
             part.incs["writer"] = part.incs.get("writer", 0) + 1   # the counter has already moved (as-is quirk)
@@ -244,7 +244,7 @@ class Shadow:
         if not part.alive or not sub.alive or topic is None:
             self.expect("C36", got, "err:AlreadyDeleted", f"create reader {name} on a deleted subscriber/topic/participant")
             return
-        if got == "err:InconsistentPolicy":
+        if got == "err:InconsistentPolicy" or self.exhausted(part, "reader", got):
             return
         if self.expect("C36", got, "ok", f"create reader {name}"):
             part.incs["reader"] = part.incs.get("reader", 0) + 1
@@ -269,10 +269,8 @@ class Shadow:
                 self.expect("C36", got, "err:AlreadyDeleted", f"delete deleted participant {name}")
             elif self.children(e, ("publisher", "subscriber", "topic", "cft")):
                 self.expect("C36", got, "err:PreconditionNotMet", f"delete participant {name} that still contains entities")
-            else:
-                cause = CAUSE_CFT_STAYS if e.had_cft and got == "err:PreconditionNotMet" else None
-                if self.expect("C36", got, "ok", f"delete empty participant {name}", cause):
-                    e.alive = False
+            elif self.expect("C36", got, "ok", f"delete empty participant {name}"):
+                e.alive = False
             return
         if k in ("publisher", "subscriber"):
             v = via if via is not None else e.part
@@ -293,26 +291,33 @@ class Shadow:
             t = self.topic_alive(e.part, e.tname)
             direct = [o for o in self.ents if o.alive and o.kind in ("writer", "reader") and o.part is e.part and o.tname == e.tname]
             through = [o for o in self.ents if o.alive and o.kind == "reader" and o.part is e.part and o.base == e.tname and o.tname != e.tname]
+            referring = [o for o in self.ents if o.alive and o.kind == "cft" and o.part is e.part and o.related == e.tname]
             if not e.part.alive:
                 self.expect("C36", got, "err:AlreadyDeleted", f"delete topic {name} of a deleted participant")
             elif v is not e.part:
                 self.expect("C36", got, "err:PreconditionNotMet", f"delete topic {name} through a participant that is not its parent")
             elif t is None:
                 self.expect("C36", got, "err:AlreadyDeleted", f"delete deleted topic {name}")
-            elif direct or through:
-                cause = CAUSE_TOPIC_VIA_CFT if (not direct and is_ok(got)) else None
+            elif direct or through or referring:
                 ok = self.expect("C36", got, "err:PreconditionNotMet",
-                                 f"delete topic {name} still used by {len(direct)} endpoint(s) directly and {len(through)} reader(s) through a content-filtered topic", cause)
+                                 f"delete topic {name} still used by {len(direct)} endpoint(s) directly, {len(through)} reader(s) through and {len(referring)} content-filtered topic(s)")
                 if not ok and is_ok(got):
                     t.alive = False
             elif self.expect("C36", got, "ok", f"delete unused topic {name}"):
                 t.alive = False
             return
         if k == "cft":
+            same = [o for o in self.ents if o.alive and o.kind == "cft" and o.part is e.part and o.cname == e.cname]
+            users = [o for o in self.ents if o.alive and o.kind == "reader" and o.part is e.part and o.tname == e.cname]
             if not e.part.alive:
                 self.expect("C36", got, "err:AlreadyDeleted", f"delete content-filtered topic {name} of a deleted participant")
-            elif is_ok(got):
-                e.alive = False
+            elif not same:
+                self.expect("C36", got, "err:AlreadyDeleted", f"delete deleted content-filtered topic {name}")
+            elif users:
+                self.expect("C36", got, "err:PreconditionNotMet", f"delete content-filtered topic {name} still used by {len(users)} reader(s)")
+            elif self.expect("C36", got, "ok", f"delete unused content-filtered topic {name}"):
+                for o in same:          # a content-filtered topic is its name: every one of that name goes
+                    o.alive = False
             return
         if k in ("writer", "reader"):
             v = via if via is not None else e.parent
